@@ -190,8 +190,31 @@ def check_arma2psd_centerdc(chk, table, maxn):
         chk.count('arma2psd-centerdc', 'calls')
 
 
+def axis_proofs(chk):
+    """TLAPS: the rotation index maps are mutually inverse permutations for EVERY NFFT (not only n <= MaxN)."""
+    import os
+    import re
+    import shutil
+    import subprocess
+    if not shutil.which('tlapm'):
+        chk.notes.append('tlapm not found: AxisProofs.tla not re-proved in this run')
+        return
+    d = tlc.new_workdir('C06-tlaps')
+    try:
+        p = subprocess.run(['tlapm', '--cleanfp', 'AxisProofs.tla'], cwd=d, stdout=subprocess.PIPE, stderr=subprocess.STDOUT,
+                           timeout=600, universal_newlines=True)
+        m = re.search(r'All (\d+) obligations? proved', p.stdout)
+        if not m:
+            raise core.MachineryError('TLAPS did not prove AxisProofs.tla:\n' + p.stdout[-1500:])
+        chk.part('axis-proofs-tlaps')['obligations_proved'] = int(m.group(1))
+        chk.assumptions.append('TLAPS proved %s obligations of AxisProofs.tla (rotation index maps inverse, in range, one-sided count, centred axis) for all NFFT' % m.group(1))
+    finally:
+        tlc.cleanup(d)
+
+
 def run(chk):
     quick = chk.tier == 'quick'
+    axis_proofs(chk)
     maxn = 9 if quick else 12
     maxh = 3 if quick else 4
     cfg = tlc._cfg_text(constants={'MaxN': maxn, 'MaxHist': maxh},
